@@ -710,6 +710,17 @@ func (e *Env) call(x *ECall) (Val, error) {
 		}
 		comp := g.elemComp(SInt)
 		return Val{T: sx("str.ofbytes", sel(g.hget(e.heap, comp), sx("s-arr", a.T)), sx("s-off", a.T), sx("s-len", a.T)), S: SStr, Ty: types.Typ[types.String]}, nil
+	case "witness":
+		// witness(i): true; offers the index term i as a candidate witness when a goal of the unit is existential
+		// (a proof hint: it adds no assumption - the goal is only replaced by the disjunction of some of its instances)
+		if err := need(1); err != nil {
+			return Val{}, err
+		}
+		if args[0].S == SInt && !strings.Contains(args[0].T, "|q!") && !g.S.declared["witness:"+args[0].T] {
+			g.S.declared["witness:"+args[0].T] = true
+			g.S.witTerms = append(g.S.witTerms, args[0].T)
+		}
+		return Val{T: "true", S: SBool, Ty: types.Typ[types.Bool]}, nil
 	case "streq":
 		// streq(s, t): s == t, provable by extensionality (same length, same bytes); the instance of the
 		// extensionality theorem for this pair is added to the context (sound: strings are finite byte sequences)
